@@ -40,6 +40,9 @@ func TestDev(t *testing.T) {
 		if out.nontrivial {
 			nt++
 		}
+		if out.inconclusive != "" {
+			st.Inc("dev_inconclusive:" + out.inconclusive)
+		}
 		if out.viol != nil {
 			lines := strings.Split(out.viol.detail, "\n")
 			k := out.viol.monitor + "|" + out.viol.opKind + "|" + core.Trunc(digits.ReplaceAllString(strings.Join(lines[1:min(3, len(lines))], " / "), "#"), 160)
